@@ -16,6 +16,11 @@
 (* with the coin at "never reject" until the coin is consulted: the        *)
 (* probability it is asked about reveals (successes, total) exactly, so an *)
 (* accounting error that stayed below the threshold is still observed.     *)
+(* SuccSeq / FailSeq select the family: CoreKinds* (all variants),         *)
+(* PredKinds* (every acceptable-predicate), PromiseKinds* (Allow + Accept  *)
+(* or Reject with every class of reason; with Rots = 0..3 every reason     *)
+(* opens a burst).  Names say how the instance is made ("p.." is           *)
+(* New(WithName), "q.." is New(), anything else lives in the registry).    *)
 (* Every call carries the specification's prediction (CallOn of            *)
 (* Breaker.tla in closed form); the Go driver only compares.               *)
 (***************************************************************************)
